@@ -200,15 +200,17 @@ theorem client_history_script_independent (B : Nat) (hB : 0 < B) (data : Bytes) 
 /-- **`read_skip_splice_spec`.** From any stream state `s` that represents position `t.pos` of the file
 (`Rel`, `Iv`: every state a client can reach), for every script of short counts and `EINTR`s, every buffer size:
 `sqfs_istream_read` returns exactly the next `min size 0x7FFFFFFF` bytes of the file (fewer only at its end),
-`sqfs_istream_skip` succeeds, and `sqfs_istream_splice` reports the count of bytes that were left and has
-appended exactly those bytes to the output stream; **and afterwards** the stream again represents a position of
+`sqfs_istream_skip` succeeds **iff** at least `size` bytes are left and otherwise fails with
+`SQFS_ERROR_OUT_OF_BOUNDS` having consumed everything (`skipRc`: a function of the sizes alone, not of the script),
+and `sqfs_istream_splice` reports the count of bytes that were left and has appended exactly those bytes to the
+output stream; **and afterwards** the stream again represents a position of
 the file — the old one plus the number of bytes consumed — so the next client call starts from a state that
 depends on the script in nothing a client can observe. -/
 theorem read_skip_splice_spec (B : Nat) (hB : 0 < B) (data : Bytes) (s : IStream) (t : Ideal) (hr : Rel B data s t)
     (hi : Iv data t) (o : OStream) (ho : o.sparse = 0) (hk : o.skew = 0) (size : Nat) (os : OS)
     (h : noHard os.sc = true) :
     (istreamRead (fileStream B) s size os).1 = .n (slice data t.pos (min size 0x7FFFFFFF)) ∧
-    (istreamSkip (fileStream B) s size os).1 = .ok ∧
+    (istreamSkip (fileStream B) s size os).1 = (if size ≤ data.length - t.pos then .ok else .oob) ∧
     (istreamSplice (fileStream B) s o size os).1 = (.ok, min (min size 0x7FFFFFFF) (data.length - t.pos)) ∧
     (istreamSplice (fileStream B) s o size os).2.2.1.out = o.out ++ slice data t.pos (min size 0x7FFFFFFF) ∧
     (∃ t', Rel B data (istreamRead (fileStream B) s size os).2.1 t' ∧ Iv data t' ∧
@@ -233,7 +235,7 @@ theorem read_skip_splice_spec (B : Nat) (hB : 0 < B) (data : Bytes) (s : IStream
   rw [c1] at h1 r1
   rw [c2] at h2 r2
   rw [c3] at h3 r3
-  simp only [istreamRead, istreamSkip, istreamSplice, hsz, h1, h2, h3, List.nil_append, Nat.zero_add, co, true_and]
+  simp only [istreamRead, istreamSkip, istreamSplice, hsz, h1, h2, h3, List.nil_append, Nat.zero_add, co, true_and, skipRc]
   exact ⟨⟨t1, r1, i1, p1⟩, ⟨t2, r2, i2, p2⟩, ⟨t3, r3, i3, p3⟩⟩
 
 /-- **`get_line_chunking_independent`.** From any reachable stream state, with any pending partial line `acc` and
@@ -261,13 +263,16 @@ theorem get_line_chunking_independent (B : Nat) (hB : 0 < B) (data : Bytes) (s :
   exact ⟨t1, r1, i1, d1⟩
 
 /-- **`record_to_memory_spec`.** For every script of short counts and `EINTR`s and every buffer size,
-`record_to_memory(size)` returns exactly the next `size` bytes of the file, or NULL when fewer are left
-(or `size` exceeds what `sqfs_istream_read` transfers in one call), **and leaves the stream behind the record and
-its padding to the next multiple of 512** (`recordEnd`; as far as the data reaches). -/
+`record_to_memory(size)` returns exactly the next `size` bytes of the file, or NULL when fewer are left, when the
+padding to the next multiple of 512 is cut short (`sqfs_istream_skip` then fails), or when `size` exceeds what
+`sqfs_istream_read` transfers in one call; **and it leaves the stream behind the record and its padding**
+(`recordEnd`; as far as the data reaches). -/
 theorem record_to_memory_spec (B : Nat) (hB : 0 < B) (data : Bytes) (s : IStream) (t : Ideal) (hr : Rel B data s t)
     (hi : Iv data t) (size : Nat) (os : OS) (h : noHard os.sc = true) :
     (recordToMemory (fileStream B) s size os).1 =
-      (if t.pos + size ≤ data.length ∧ size ≤ 0x7FFFFFFF then some (slice data t.pos size) else none) ∧
+      (if t.pos + size ≤ data.length ∧ size ≤ 0x7FFFFFFF ∧
+          (size % 512 = 0 ∨ t.pos + size + (512 - size % 512) ≤ data.length)
+        then some (slice data t.pos size) else none) ∧
     (∃ t', Rel B data (recordToMemory (fileStream B) s size os).2.1 t' ∧ Iv data t' ∧
       t'.pos = recordEnd data.length t.pos size) := by
   obtain ⟨s1, _, h1, r1, _⟩ := recordToMemory_sim (file_sim B hB data) s t size os OS.full hr h (by simp [noHard, OS.full])
@@ -439,5 +444,10 @@ example : (runOps (tarStream (fileStream 4)) ⟨tarOpen ⟨IStream.init [1,2], .
 -- after a failed `ftruncate` the descriptor stays ahead of the end of the file and the hole stays pending (unix.c:73-84)
 example : (runOOpsAll (OStream.init false) [.data [1], .hole 3, .flush, .flush] ⟨[.part 0, .err], []⟩).1 = [.ok, .ok, .io, .ok] ∧
     (runOOpsAll (OStream.init false) [.data [1], .hole 3, .flush, .flush] ⟨[.part 0, .err], []⟩).2.1.out = [1,0,0,0,0,0,0] := by decide
+-- skipping past the end of the input is an error (stream_api.c:56-60), whatever the chunking; skipping exactly to it is not
+example : (runOps (fileStream 4) ⟨IStream.init [1,2,3,4,5,6], OStream.init false, 0⟩ [.skip 6, .skip 1]
+      ⟨[.part 0, .eintr, .part 1], []⟩).1 = [.skip .ok, .skip .oob] ∧
+    (runOps (fileStream 4) ⟨IStream.init [1,2,3,4,5,6], OStream.init false, 0⟩ [.skip 7] ⟨[.part 0, .eintr], []⟩).1 = [.skip .oob] := by
+  decide
 
 end Sqfs.C12
